@@ -13,6 +13,7 @@ import (
 	"verif/h/crashx"
 	"verif/h/dmgx"
 	"verif/h/eng"
+	"verif/h/lockx"
 	"verif/h/schedx"
 	"verif/h/seqx"
 )
@@ -21,6 +22,7 @@ type seqCheck struct {
 	families []string
 	thorough []string
 	pre      func(r *eng.Run, tier string) // extra engine run before the search (same evidence file)
+	post     func(r *eng.Run, tier string) // extra engine run after the search
 	rule     string
 	assume   []string
 }
@@ -32,7 +34,7 @@ var seqChecks = map[string]seqCheck{
 	"C04": {families: []string{"core", "cfg", "roll", "tail"}},
 	"C09": {families: []string{"collide"}},
 	"C10": {families: []string{"times", "core", "cfg", "roll", "inputs", "helpers"}},
-	"C11": {families: []string{"ixfiles"}, thorough: []string{"ixfiles", "ixfiles-all"}},
+	"C11": {families: []string{"ixfiles"}, thorough: []string{"ixfiles", "ixfiles-all"}, post: runIndexSched},
 	"C12": {families: []string{"del"}},
 	"C13": {families: []string{"core", "cfg", "roll", "inputs"}, pre: runCodecx},
 	"C15": {families: []string{"trim"}},
@@ -70,6 +72,9 @@ func runCheck(prop, tier string) int {
 	if prop == "C08" || prop == "C18" {
 		return runSched(prop, tier)
 	}
+	if prop == "C19" {
+		return runLock(tier)
+	}
 	fmt.Fprintln(os.Stderr, "no check for", prop)
 	return 2
 }
@@ -97,6 +102,9 @@ func runSeq(prop, tier string, c seqCheck) int {
 		left := budget - r.Elapsed()
 		share := left / time.Duration(len(c.families)-i)
 		seqx.Explore(r, pool, f, tier, time.Now().Add(share), st)
+	}
+	if c.post != nil {
+		c.post(r, tier)
 	}
 	r.Cov["states"] = st.States
 	r.Cov["transitions"] = st.Transitions
@@ -662,4 +670,105 @@ func firstWords(s string, n int) string {
 		f = f[:n]
 	}
 	return strings.Join(f, " ")
+}
+
+// runIndexSched is the concurrent part of C11: threads making the first
+// access to segments whose index files were removed; after Close every index
+// file must match its log.
+func runIndexSched(r *eng.Run, tier string) {
+	pool := eng.NewPool("schedx")
+	pool.Env = []string{"GOMAXPROCS=1"}
+	pool.Guard = 30 * time.Minute
+	pool.Start()
+	defer pool.Close()
+	bound := 2
+	if tier == "thorough" {
+		bound = 3
+	}
+	var tasks []schedx.Task
+	for _, p := range schedx.Programs11() {
+		tasks = append(tasks, schedx.Task{Prog: p, Bound: bound, Budget: 300000, Judge: "index"})
+	}
+	execs := 0
+	eng.Map(pool, tasks, func(i int, raw json.RawMessage, err error) {
+		if err != nil {
+			r.HarnessError(fmt.Sprintf("concurrent part: %s: %v", tasks[i].Prog, err))
+			return
+		}
+		var res schedx.TaskResult
+		if err := json.Unmarshal(raw, &res); err != nil || res.HarnessErr != "" {
+			r.HarnessError(fmt.Sprintf("concurrent part: %s: %v %s", tasks[i].Prog, err, res.HarnessErr))
+			return
+		}
+		execs += res.Executions
+		if !res.Exhausted {
+			r.Cap(fmt.Sprintf("concurrent part: %s: execution budget hit", tasks[i].Prog))
+		}
+		for _, f := range res.Findings {
+			if f.Kind == "nondeterminism" {
+				r.HarnessError(fmt.Sprintf("concurrent part: %s: %s", tasks[i].Prog, f.Msg))
+				continue
+			}
+			r.Report(eng.Violation{Sig: "concurrent: " + f.Kind + ": " + seqx.Signature(firstWords(f.Msg, 14)), Msg: fmt.Sprintf("%s in %s with %d preemptions", f.Msg, tasks[i].Prog, f.Preempt),
+				Replay: map[string]any{"engine": "schedx", "kind": f.Kind, "program": tasks[i].Prog, "choices": f.Choices, "expected_vs_observed": f.Msg}})
+		}
+	})
+	r.Cov["concurrent_programs"] = len(tasks)
+	r.Cov["concurrent_executions"] = execs
+	r.Cov["concurrent_rule"] = fmt.Sprintf("all pairs (and two triples) of first accesses (Get, Consume, GetByKey, Stat, Delete, GC) to a three-segment log whose index files were removed, every schedule up to %d preemptions under the cooperative scheduler; after Close every index file must equal the index derived from its log", bound)
+}
+
+func runLock(tier string) int {
+	r := eng.NewRun("C19", tier, "model_checking", "lockx")
+	depth := 6
+	if tier == "thorough" {
+		depth = 8
+	}
+	depth = envInt("VERIF_DEPTH", depth)
+	root, err := os.MkdirTemp(scratch(), "verif.lockx.")
+	if err != nil {
+		r.HarnessError(err.Error())
+		return r.Finish()
+	}
+	defer os.RemoveAll(root)
+	type out struct {
+		st  lockx.Start
+		res lockx.Result
+	}
+	ch := make(chan out, len(lockx.Starts))
+	for _, st := range lockx.Starts {
+		go func(st lockx.Start) {
+			sub, _ := os.MkdirTemp(root, "s")
+			ch <- out{st, lockx.Explore(sub, st, depth)}
+		}(st)
+	}
+	states, trans, maxd := 0, 0, 0
+	for range lockx.Starts {
+		o := <-ch
+		if o.res.HarnessErr != "" {
+			r.HarnessError(o.st.Name + ": " + o.res.HarnessErr)
+		}
+		states += o.res.States
+		trans += o.res.Transitions
+		if o.res.Depth > maxd {
+			maxd = o.res.Depth
+		}
+		if o.res.Sample != nil {
+			r.Samples = append(r.Samples, map[string]any{"start": o.st.Name, "history": o.res.Sample})
+		}
+		for _, p := range o.res.Problems {
+			r.Report(eng.Violation{Sig: seqx.Signature(p.Msg), Msg: fmt.Sprintf("%s after %v from start state %s", p.Msg, p.Hist, p.Start),
+				Replay: map[string]any{"engine": "lockx", "start": p.Start, "history": p.Hist, "expected_vs_observed": p.Msg}})
+		}
+	}
+	r.Cov["states"] = states
+	r.Cov["transitions"] = trans
+	r.Cov["traces_validated_against_impl"] = trans
+	r.Cov["evaluations"] = trans
+	r.Cov["distinct_nontrivial"] = states
+	r.Cov["max_depth_completed"] = maxd
+	r.Cov["start_states"] = len(lockx.Starts)
+	r.Cov["rule"] = "breadth-first search over all sequences of OpenRW / OpenRO / failing Open (index-parameter mismatch under Check, read-write and read-only) / Close / Publish / Publish+Delete attempts through read-only handles on three handle slots of one directory (slots symmetric), from five start states (empty, single segment, multi segment, multi segment without index files, directory never opened before); a state is (slot modes, NextOffset, directory contents); every transition is a real execution of the whole history"
+	r.Assumptions = []string{"flock conflicts are per open file description, so handles inside one process exercise the same kernel path as separate processes", "up to three handles, histories up to the reported depth"}
+	return r.Finish()
 }
